@@ -13,7 +13,7 @@ let geti k d l = int_of_string (get k (string_of_int d) l)
    call k of thread t in round r allocates one block of this many bytes. *)
 let asize t r k = 64 * (t + 1) + 8 * r + k + 1
 
-type case = { t : int; r : int; n : int; dout : bool; din : bool; grd : bool; faults : (int * int * int) list; test : bool }
+type case = { t : int; r : int; n : int; dout : bool; din : bool; grd : bool; faults : (int * int * int) list; test : bool; noinfo : int }
 
 (* fault token: t:r:g:k | t:r:c:k | t:r:o:k | t:r:i:k  (generator, call, drop of output, drop of input) *)
 let pos_of n dout din ph k =
@@ -34,11 +34,11 @@ let parse_case line =
     | s -> List.map (fun f -> match String.split_on_char ':' f with
         | [t; r; ph; k] -> (int_of_string t, int_of_string r, pos_of n dout din ph (int_of_string k))
         | _ -> failwith "fault") (String.split_on_char ',' s) in
-  { t = geti "T" 2 l; r = geti "R" 1 l; n; dout; din; grd = get "guard" "1" l = "1"; faults; test = get "test" "0" l = "1" }
+  { t = geti "T" 2 l; r = geti "R" 1 l; n; dout; din; grd = get "guard" "1" l = "1"; faults; test = get "test" "0" l = "1"; noinfo = geti "noinfo" (-1) l }
 
 let config_of ?(fault_all = None) (c : case) : config =
   { nthreads = nat_of_int c.t; nrounds = nat_of_int c.r; ssize = (fun _ -> nat_of_int c.n);
-    shp = { drop_out = c.dout; drop_in = c.din }; guard = c.grd; has_info = (fun _ -> true);
+    shp = { drop_out = c.dout; drop_in = c.din }; guard = c.grd; has_info = (fun i -> int_of_nat i <> c.noinfo);
     fault = (fun i r p -> match fault_all with
       | Some b -> b
       | None -> List.mem (int_of_nat i, int_of_nat r, int_of_nat p) c.faults);
@@ -83,7 +83,7 @@ let bfs line =
                                  if i = k && not (panicked th) then fail "reported-thread-did-not-panic") s.ths
        | _ -> ());
       if succs <> [] then fail "final-has-steps"
-    end else if succs = [] then begin incr deadlocks; if c.grd then fail "deadlock" end;
+    end else if succs = [] then begin incr deadlocks; if c.grd && c.noinfo < 0 then fail "deadlock" end;
     List.iter (fun s' ->
       incr trans;
       if not (int_of_nat (measure cf s') < int_of_nat (measure cf s)) then fail "measure";
